@@ -451,9 +451,52 @@ def check_C10(ctx):
         if unreadable and i["status"] == "ok":
             ctx.violation("C10:success-on-unreadable-file:" + c["cmd"], "%s reports success although %s cannot be read completely (line of 65536+ bytes, or a directory)" % (c["cmd"], unreadable),
                           dict(kind="cli", case=c, impl=i))
+    # the same at the level of the commands: the reader of the log / of the book fails from byte k on, for EVERY k, through every command that opens its
+    # files with the shared opener (in-process: the production opener's readers are wrapped); also with the failure behind the end of the period
+    book0 = b"bread:\n  kcal: 250\n  fat: 1\ntea:\n  kcal: 2\n"
+    log0 = b"2021/01/01:\n  bread: 2\n  tea: 1\n2021/01/03:\n  water: 3\n  a/b: 1\n2021/01/02:\n  bread: 1\n"
+    fcases = []
+    forms = [dict(cmd="reg"), dict(cmd="reg", old=True), dict(cmd="reg", single_element="kcal"), dict(cmd="reg", single_element="kcal", group_food=True), dict(cmd="reg", single_food="ea"),
+             dict(cmd="bal"), dict(cmd="bal", single_element="kcal"), dict(cmd="totals"), dict(cmd="quantity"), dict(cmd="unresolved"), dict(cmd="element-total", arg=b"kcal"),
+             dict(cmd="csv-log"), dict(cmd="csv-db"), dict(cmd="csv-db-resolved"), dict(cmd="summary", arg=b"2021/01/01"), dict(cmd="print")]
+    for wi in range(ctx.scale(2, 12)):
+        if wi == 0: bookb, logb = book0, log0
+        else:
+            w = gen.world(r, envelope=True, fancy=0.1, cycles=0)
+            f = files_of(r, w); bookb, logb = f["food.yaml"][:160], f["log.yaml"][:200]
+        for form in forms:
+            for which, data in (("log.yaml", logb), ("food.yaml", bookb)):
+                if which not in READS[form["cmd"]]: continue
+                ks = range(len(data) + 2) if wi == 0 else sorted(set(r.sample(range(len(data) + 2), min(len(data) + 2, 12))) | {0, len(data)})
+                for k in ks:
+                    c = dict(files={"food.yaml": bookb, "log.yaml": logb}, f_today="2021/01/05", read_faults={which: k}, sink=None, **form, **NOCOLOR)
+                    if which == "log.yaml" and form["cmd"] in ("reg", "bal", "csv-log", "print", "totals", "quantity", "unresolved") and k % 3 == 0: c["g_end"] = "2021/01/01"
+                    fcases.append(c)
+        ctx.nontriv(bookb + b"|" + logb)
+    fres = cli_diff(ctx, fcases, tag="C10:cmd-fault:", inproc=True)
+    for c, i in zip(fcases, fres):
+        if i["status"] == "ok":
+            ctx.violation("C10:success-on-read-fault:" + c["cmd"], "%s reports success although reading %s failed at byte %d" % ((c["cmd"],) + list(c["read_faults"].items())[0]), dict(kind="cli", case=c, impl=i))
+    ctx.notes["command_level_read_faults"] = dict(cases=len(fcases), commands=len(forms))
+    # a file that does not exist, through every command and every way of naming it
+    mcases = []
+    for form in forms + [dict(cmd="stats"), dict(cmd="lint", arg=b"nowhere.yaml")]:
+        for key in ("f_log", "e_log", "f_db", "e_db", "cfg_log", "cfg_db"):
+            c = dict(files={"food.yaml": book0, "log.yaml": log0}, f_today="2021/01/05", **form, **NOCOLOR)
+            if key.startswith("cfg_"): c["files"] = dict(c["files"], **{"my.cfg": {"cfg": {key[4:]: "nowhere.yaml"}}}); c["f_config"] = "my.cfg"
+            else: c[key] = "nowhere.yaml"
+            mcases.append(c)
+    mres = cli_diff(ctx, mcases, tag="C10:missing-file:")
+    for c, i in zip(mcases, mres):
+        reads = READS.get(c["cmd"], [])
+        named = "log.yaml" if any(k2 in c for k2 in ("f_log", "e_log")) or "log" in (c["files"].get("my.cfg") or {}).get("cfg", {}) else "food.yaml"
+        if c["cmd"] != "lint" and named in reads and i["status"] == "ok":
+            ctx.violation("C10:success-on-missing-file:" + c["cmd"], "%s reports success although its %s does not exist" % (c["cmd"], named), dict(kind="cli", case=c, impl=i))
     return dict(rule="S-SCAN: for %d small files every byte offset 0..len+1 at which the reader starts failing, with reads of 1, 3 and 4096 bytes, exact callback sequence and returned "
                 "error vs the model (and the returned error must be non-nil); lines of 65535 / 65536 / 70000 bytes at first, middle, last position, LF / CRLF / unterminated; the same "
-                "files and a directory given as log or book through every command on the real binary. Non-trivial = distinct file (all offsets) / distinct (command, file shape)" % nfiles,
+                "files and a directory given as log or book through every command on the real binary; a reader that fails from byte k on for EVERY k of a small log / book through 16 command "
+                "forms in-process (outcome and the bytes written so far vs the model; success is a violation), also with the failure behind the end of the period; a file that does not exist "
+                "named by flag, environment or configuration file. Non-trivial = distinct file (all offsets) / distinct (command, file shape)" % nfiles,
                 extra=dict(exhaustive_offsets=True))
 
 from .props2 import *     # noqa: E402,F401  (part 2 of the per-property checks; imports the helpers above)
